@@ -256,7 +256,7 @@ def classify(s, tname):
             causes.append("bitwise-operators-bind-looser-than-comparison")
         if "|" in g and "^" in g:
             causes.append("bitor-and-bitxor-share-a-level")
-        if re.search(r"\*(?!\*)[^*]*?(//|%)", g):
+        if re.search(r"\*(?!\*)[^*]*?(//|%|/)", g):
             causes.append("right-operand-of-times-parsed-at-sum-level")
     for c in ["chained-comparison", "not-binds-tighter-than-comparison-and-arithmetic",
               "right-operand-of-times-parsed-at-sum-level", "unary-minus-or-invert-binds-tighter-than-power",
